@@ -57,7 +57,7 @@ PROPS = {
         partial=["names_fresh_at over histories not proved (checked on every reached state)"]),
     "C02": rt(700, 12000, ["serve-with-params", "serve-user"],
         "add-only tables of 1-14 routes in random registration orders incl. >=5 literal siblings; probes as C01, ASCII; the table-only resolver `resolve` (Spec/Resolve.v) is evaluated on every probe",
-        props=["TreeMatch", "C02order"],
+        props=["TreeMatch", "C02order", "Consts"],
         level_text="C02_shortest_capture: for every matcher function, suffix and path, a parameter takes the SHORTEST accepted value that is followed by its literal suffix (no widening) - all inputs. C02_order_reachable / C02_literal_children_first / C02_sort_node_sorted: in every reachable tree the children of every node are ordered literal < interceptor < regexp < named and every index entry points at a literal child, so depth-first search tries the kinds in the documented priority (proved preserved through registration incl. splits, removal, clean, use). The full refinement 'match on the tree built from a table = outcomes(table)' is stated as the executable resolver Spec/Resolve.v and decided on the implementation on every probe.",
         level_note="partial: kind-priority / first-byte-index / radix-split refinement to the table resolver (Repr invariant) is not proved; it is checked by evaluating the extracted resolver against implementation and model.",
         partial=["C02_priority (refinement tree -> outcomes) not proved"]),
@@ -69,16 +69,16 @@ PROPS = {
         partial=["C03_refinement (abs_tree (step t op) = table_step (abs_tree t) op) not proved"]),
     "C04": rt(350, 6000, ["serve-options", "serve-405"],
         "histories as C03 (40% removals, WithTrace 50%) with OPTIONS and an unused method on every pool pattern and OPTIONS * after every step",
-        props=["C04", "C04hist", "C04count"],
+        props=["C04", "C04hist", "C04count", "Consts"],
         level_text="C04_allow_exact_reachable: in EVERY reachable tree (any history of Handle/Remove/Clean/Use incl. rejected calls) the method set rendered for every route node is exactly its registered methods (+HEAD iff GET, OPTIONS always) plus TRACE iff configured - from the node invariant hs_ok proved preserved by tree_add/remove/clean/use (C04_hs_*) and the bit-set rendering lemma C04_bits_render (finite sweep over all key subsets); C08_head_iff_get_reachable. C04_spec_exact etc.: the specified Allow set on the abstract table. C04_counters_reachable / C04_options_star_exact: in every reachable state the tree-wide counters are exactly the per-method numbers of live routes, and OPTIONS * lists exactly OPTIONS, TRACE when configured and the methods registered on at least one live route (HEAD never).",
         level_note="proved at tree level for every history; that Routes()/Node().Methods() read the same bit-sets is the model's tree_routes/serve_obs, compared on every step.",
         partial=[]),
     "C05": rt(500, 10000, ["serve", "handle-rejected"],
         "40% malformed / arbitrary-byte patterns, reserved/unknown/duplicate methods, raw paths ('', '*', NUL, 0xff, long), Remove/Clean histories, URL and CheckSyntax on the same strings; every call under recover()",
-        props=["TreeMatch", "C05hist", "C05parse"], extra_runs=[("C14", "C05m", 0.4), ("C15", "C05m", 0.3), ("C13", "C05g", 0.3)],
+        props=["TreeMatch", "C05hist", "C05parse", "C05reg", "Consts"], extra_runs=[("C14", "C05m", 0.4), ("C15", "C05m", 0.3), ("C13", "C05g", 0.3)],
         level_text="C05_serve_total: for EVERY history of Handle/Remove/Clean/Use from a new tree (any patterns, any methods, rejected calls included) and every request (any method bytes, any path bytes incl. '' and '*'), dispatch returns a handler and never faults - by the invariant tree_safe (index entries in range, 405 handler wherever handlers exist, root answers) proved for new_tree and preserved by tree_add (through the continuation-passing add_segment/split), tree_remove, tree_clean and tree_apply_mw (C05_add_safe, C05_remove_safe, C05_clean_safe, C05_use_safe, C05_handler_total); C05_match_no_panic, C05_build_indexes_ok, C05_sort_node_idx_ok underneath. C05_check_syntax_no_panic / C05_split_no_panic / C05_url_nonstrict_no_panic / C05_mux_url_no_panic: CheckSyntax and URL never fault on ANY byte string; C05_new_segment_panic_iff characterises exactly when the internal NewSegment would fault (a ':' before the first '{' - refuted for arbitrary input, proved unreachable through Split). Every Go fault site of the modelled code is an explicit Panic result in the model, compared with the implementation's recover() classification.",
-        level_note="proved for dispatch (ServeHTTP's matching and handler lookup). Not proved: that the registration functions themselves never return the model's Panic (slice bounds inside Split/NewSegment, fuel sufficiency of add_segment) - covered by the byte-level fuzzing correspondence; Hosts/version matchers and net/http glue are exercised, not proved.",
-        partial=["C05_handle_error_or_ok (tree_add never returns Panic) not proved"]),
+        level_note="proved for dispatch (C05_serve_total), for registration/removal/cleaning on every reachable table and every byte string (C05_add_never_faults, C05_remove_never_faults, C05_clean_never_faults: Handle either registers or returns an error value; the fuel handed out by tree_add is always sufficient; labels of reachable trees never hit the one input class on which NewSegment faults), for CheckSyntax/URL on every byte string, and for Hosts.Match on every reachable hosts tree (C14_hosts_match_total). Version matchers are total by construction (no partial operation in the model); net/http glue (request construction, ResponseWriter) is exercised, not proved.",
+        partial=[]),
     "C06": {"kind": "conc", "scenario": "c06", "props": ["C06", "ConcGeneric"],
         "quick": {"seconds": 4, "seeds": 1}, "thorough": {"seconds": 60, "seeds": 5},
         "rule": "3 writer goroutines toggling 7 routes (Handle/Remove, incl. registrations that split and re-merge the nodes of the 4 untouched routes) x 6 reader goroutines (ServeHTTP on untouched and toggled routes, OPTIONS, Routes(), strict URL) on a WithLock(true) router, in a subprocess built with -race; every response checked for admissibility",
@@ -149,7 +149,7 @@ PROPS = {
         partial=["C17_ambiguous_pair / C17_no_false_ambiguity not proved (oracle only)"]),
     "C18": rt(300, 5000, ["serve-trace", "tracehelper"],
         "routers with WithTrace 70%: TRACE on live/unknown/raw paths, Allow probes, Use; the Trace helper on requests with HTML metacharacters, with/without body",
-        props=["C18", "C08head"],
+        props=["C18", "C08head", "Consts"],
         level_text="C18_trace_any_path, C18_trace_only_use_middlewares, C18_trace_cannot_be_registered, C18_without_option_trace_is_ordinary, C18_new_tree_trace, C18_trace_helper (status 200, Content-Type message/http in the SENT headers, body = escaped dump).",
         level_note="httputil.DumpRequest and html.EscapeString are parameters of C18_trace_helper."),
     "C19": rt(300, 5000, ["handle-ok"],
